@@ -53,10 +53,10 @@ struct Model {
 	QEv q[MAXQ * 2]; int nq;
 	int hproto[MAXL]; uint32_t hid[MAXL]; bool hlive[MAXL]; int nh;
 };
-struct G { T * t; Model m; T::Handle hs[MAXL]; uint32_t nextid; int predCalls; int predProtoMask; bool predOk; uint32_t acceptBit; int budget; bool inProcessing; };
+struct G { T * t; Model m; T::Handle hs[MAXL]; uint32_t nextid; int predCalls; int predProtoMask; bool predOk; uint32_t acceptBit; int budget; bool inProcessing; unsigned nextconv; };
 static G * g;
 
-enum { COV_INVOKE_EACH = 0, COV_RECYCLE_OTHER_TYPE, COV_IF_SKIPS_FOREIGN, COV_IF_ANY_CONTINUES, COV_MIXED_QUEUE, COV_REENTRANT_ENQ, COV_N };
+enum { COV_INVOKE_EACH = 0, COV_RECYCLE_OTHER_TYPE, COV_IF_SKIPS_FOREIGN, COV_IF_ANY_CONTINUES, COV_MIXED_QUEUE, COV_REENTRANT_ENQ, COV_INSERT_SAME_PROTO, COV_INSERT_OTHER_PROTO, COV_CONVERTED_ARG, COV_N };
 
 static T::Handle add(int p, uint32_t id, bool front)
 {
@@ -69,6 +69,20 @@ static T::Handle add(int p, uint32_t id, bool front)
 	if(p == 1) return ADDL([id](uint32_t a) { rec(1, id, a); });
 	if(p == 2) return ADDL([id](const Big & b) { rec(2, id, b.intact(b.tag) ? b.tag : 0xbadbad00u); });
 	return ADDL([id](Trk t, uint32_t a) { rec(3, id, (t.magic == 0x7157u && t.v == (a ^ 0x33u)) ? a : 0xbadbad01u); });
+}
+// insert a callback of prototype p before the callback handle `before`: immediately before it when that handle is live and of the
+// same prototype, at the back otherwise
+static T::Handle add_before(int p, uint32_t id, const T::Handle & before)
+{
+#if OBJ == 0
+#define INSL(cb) g->t->insert(cb, before)
+#else
+#define INSL(cb) g->t->insertListener(EV, cb, before)
+#endif
+	if(p == 0) return INSL([id]() { rec(0, id, 0); });
+	if(p == 1) return INSL([id](uint32_t a) { rec(1, id, a); });
+	if(p == 2) return INSL([id](const Big & b) { rec(2, id, b.intact(b.tag) ? b.tag : 0xbadbad00u); });
+	return INSL([id](Trk t, uint32_t a) { rec(3, id, (t.magic == 0x7157u && t.v == (a ^ 0x33u)) ? a : 0xbadbad01u); });
 }
 static void fire(int p, uint32_t v)
 {
@@ -93,7 +107,9 @@ static void expect_trace(const QEv * evs, int n, int aid)
 #if OBJ == 2
 static void enqueue(int p, uint32_t v)
 {
-	if(p == 0) g->t->enqueue(EV); else if(p == 1) g->t->enqueue(EV, v); else if(p == 2) g->t->enqueue(EV, Big(v)); else g->t->enqueue(EV, Trk(v ^ 0x33u), v);
+	// prototype 1 is sometimes enqueued with an argument of another type (uint16_t) that converts to the prototype's parameter type
+	if(p == 1 && (g->nextconv++ & 1)) { v &= 0xffffu; g->t->enqueue(EV, (uint16_t)v); vf_cover(COV_CONVERTED_ARG); }
+	else if(p == 0) g->t->enqueue(EV); else if(p == 1) g->t->enqueue(EV, v); else if(p == 2) g->t->enqueue(EV, Big(v)); else g->t->enqueue(EV, Trk(v ^ 0x33u), v);
 	Model & m = g->m; m.q[m.nq].proto = p; m.q[m.nq].val = v; m.nq++;
 }
 // a listener running inside a processing call may enqueue one more event (budget 1): it must wait for a later call, behind
@@ -172,14 +188,35 @@ extern "C" void harness()
 {
 	g = new G(); g->t = new T(); g->nextid = 100; Model & m = g->m;
 	for(int p = 0; p < 4; p++) { g->hs[m.nh] = add(p, g->nextid, false); m.hproto[m.nh] = p; m.hid[m.nh] = g->nextid; m.hlive[m.nh] = true; m.nh++; m.lis[p][m.nl[p]++] = g->nextid++; }
-	g->acceptBit = vf_nondet_u32(); g->budget = 1;
-	for(int step = 0; step < KK; step++) {
+	g->acceptBit = vf_nondet_u32(); g->budget = 1; g->nextconv = vf_choose(2);
 #if OBJ == 2
-		unsigned op = vf_choose(3 + 4 + 2 + 5);
-#else
-		unsigned op = vf_choose(3 + 4);
+	if(vf_choose(2)) {      // start with a recycled slot whose bytes still hold an earlier (symbolic) payload
+		enqueue(1, vf_nondet_u32() | 0x10000u);
+		g_trn = 0; bool r = g->t->process(); vf_assert(r, 251); expect_trace(m.q, 1, 252); m.nq = 0;
+	}
 #endif
-		if(op == 0 || op == 1) {                             // add a callback of prototype p (append / prepend)
+	for(int step = 0; step < KK; step++) {
+#if OBJ == 2 && defined(QOPS_ONLY)
+		unsigned op = 7 + vf_choose(7);          // only process / processOne / enqueue / processIf
+#elif OBJ == 2
+		unsigned op = vf_choose(3 + 4 + 2 + 5 + 1);
+#else
+		unsigned op = vf_choose(3 + 4 + 1);
+#endif
+		const unsigned OP_INSERT = (OBJ == 2) ? 14u : 7u;
+		if(op == OP_INSERT) {                                // insert a callback of prototype p before a handle of any prototype (live or stale)
+			int p = 1 + (int)vf_choose(2); int h = (int)vf_choose(4);      // prototype 1 or 2, before one of the four initial callbacks (one per prototype; live or removed by now)
+			if(m.nh < MAXL) {
+				g->hs[m.nh] = add_before(p, g->nextid, g->hs[h]);
+				int pos = m.nl[p];
+				if(m.hproto[h] == p && m.hlive[h]) { for(int i = 0; i < m.nl[p]; i++) if(m.lis[p][i] == m.hid[h]) pos = i; vf_cover(COV_INSERT_SAME_PROTO); }
+				else if(m.hproto[h] != p) vf_cover(COV_INSERT_OTHER_PROTO);
+				for(int k = m.nl[p]; k > pos; k--) m.lis[p][k] = m.lis[p][k - 1];
+				m.lis[p][pos] = g->nextid; m.nl[p]++;
+				m.hproto[m.nh] = p; m.hid[m.nh] = g->nextid; m.hlive[m.nh] = true; m.nh++; g->nextid++;
+			}
+		}
+		else if(op == 0 || op == 1) {                        // add a callback of prototype p (append / prepend)
 			int p = (int)vf_choose(4); bool front = op == 1;
 			if(m.nh < MAXL) {
 				g->hs[m.nh] = add(p, g->nextid, front); m.hproto[m.nh] = p; m.hid[m.nh] = g->nextid; m.hlive[m.nh] = true; m.nh++;
@@ -230,6 +267,12 @@ extern "C" void harness()
 		vf_assert(g->t->emptyQueue() == (m.nq == 0), 246);
 #endif
 		check_ledger();
+	}
+	// final probe: one more callback appended to every prototype is reached by that prototype's invocation (a stale tail would lose it)
+	for(int p = 0; p < 4; p++) if(m.nl[p] < MAXL) {
+		add(p, 9000u + (uint32_t)p, false); m.lis[p][m.nl[p]++] = 9000u + (uint32_t)p;
+		uint32_t v = vf_nondet_u32(); g_trn = 0; fire(p, v);
+		QEv e; e.proto = p; e.val = v; expect_trace(&e, 1, 253);
 	}
 #if OBJ == 2
 	// final drain: whatever is still pending comes out in FIFO order
